@@ -97,7 +97,7 @@ def _mkc(n):
 
 def harnesses(tier):
     ns = [0, 1, 2, 3] if tier == "quick" else [0, 1, 2, 3, 4]
-    qs = [4, 5] if tier == "quick" else [4, 5, 6, 7]
+    qs = [4, 5] if tier == "quick" else [4, 5, 6]
     cs = [1] if tier == "quick" else [1, 2]
     return [_mk(n) for n in ns] + [_mkq(n) for n in qs] + [_mkc(n) for n in cs]
 
